@@ -120,6 +120,15 @@ def gen_cases(rng, tier):
                   'src': 'corpus'})
     ids = trees.Ids()
     cases.append({'nodes': [trees._relabel(n, ids) for n in [G([excluded], [ok], [ok]), ok]], 'sof': sof, 'src': 'corpus'})
+  # profiling on (execute(profile_filename=...)): a main phase that times out, or whose thread outlives its deadline in
+  # its finish handler, must not keep the following phases (teardown included) from running
+  for main_raw, linger in (('timeout', False), ('cont', True), ('exc', False)):
+    ids = trees.Ids()
+    mainp = {'t': 'P', 'id': 0, 'opts': {}, 'beh': [{'raw': main_raw}]}
+    nodes = [trees._relabel(n, ids) for n in [G([ok], [mainp, ok], [ok, G([], [ok], [ok])]), ok]]
+    if linger:
+      nodes[0]['m'][0]['linger'] = True
+    cases.append({'nodes': nodes, 'profile': True, 'src': 'profiling'})
   for i in range(1200 if tier == 'quick' else 15000):
     r = rng.derive('f%d' % i)
     ids = trees.Ids()
